@@ -71,7 +71,9 @@ def modelFilters : List (String × String) :=
   [("upper", "filterUpper"), ("lower", "filterLower"), ("escape", "filterEscape"), ("e", "filterEscape"),
    ("raw", "filterRaw"), ("trim", "filterTrim"), ("length", "filterLength"), ("count", "filterLength"),
    ("default", "filterDefault"), ("join", "filterJoin"), ("first", "filterFirst"), ("last", "filterLast"),
-   ("reverse", "filterReverse"), ("keys", "filterKeys"), ("merge", "filterMerge"), ("abs", "filterAbs")]
+   ("reverse", "filterReverse"), ("keys", "filterKeys"), ("merge", "filterMerge"), ("abs", "filterAbs"),
+   ("slice", "filterSlice"), ("sort", "filterSort"), ("split", "filterSplit"),
+   ("capitalize", "filterCapitalize"), ("title", "filterTitle")]
 
 def modelFunctions : List (String × String) := [("range", "functionRange"), ("length", "functionLength")]
 
